@@ -56,7 +56,7 @@ def plan(tier, seed):
 
 
 def mandatory(tier):
-    return [f"op/{o}" for o in OPS] + ["chain", "down_chain_levels>=2", "cube_grid/spacing", "copies/fractional_internal_size"] + (["pytest"] if tier == "thorough" else [])
+    return [f"op/{o}" for o in OPS] + ["chain", "down_chain_levels>=2", "cube_grid/spacing", "copies/fractional_internal_size", "resize_to_reported/fractional_internal_size"] + (["pytest"] if tier == "thorough" else [])
 
 
 def setup(ctx):
@@ -172,6 +172,16 @@ def rand_op(rng, g, name):
                 n0, s0, c0, R0, o0 = attrs(g)
                 n1, s1, c1, R1, o1 = attrs(u)
                 ctx.close("downsample_then_upsample_spacing", s1, s0, 64 * 1.2e-7 * s0, levels=levels)
+                # an explicit resize to the size a grid already reports is still a resize: the result has exactly that many
+                # samples internally too (no fractional remainder of the downsampling), so what is derived from it next equals
+                # what is derived from the same resize of the integer-sized source grid
+                m = tuple(int(k) for k in d.size())
+                r, r0 = d.resize(m), g.resize(m)
+                ctx.true("resize_to_reported_size_equals_resize_of_source", r == r0 and list(r.size()) == list(m), levels=levels, got=repr(r), want=repr(r0))
+                ru, r0u = r.upsample(1), r0.upsample(1)
+                ctx.true("derivation_after_resize_to_reported_size", ru == r0u and list(ru.size()) == list(r0u.size()), levels=levels, got=repr(ru), want=repr(r0u))
+                if bool((d._size != d._size.round()).any()):
+                    ctx.bucket("resize_to_reported/fractional_internal_size")
                 return u
             return f, dict(op=name, levels=levels)
         dims = None if rng.integers(0, 2) else sorted(rng.choice(D, size=int(rng.integers(1, D + 1)), replace=False).tolist())
